@@ -9,5 +9,6 @@ CONSTANTS MaxLen = 4
   Variant = "doc"
   CopyVarContext = TRUE
   ExtendByCompose = TRUE
+  PathKeys = FALSE
 INVARIANT Emitted
 CHECK_DEADLOCK FALSE
